@@ -145,7 +145,8 @@ def impl(case):
                     near = True
         for k in range(1, n + 1):
             mv = [mvrs[i] for i in order[:k]]
-            cv = [cvrs[i] for i in order[:k]] if comparison else None
+            # a polling audit may be handed the CVRs as well (documented as unneeded): the data must not change
+            cv = [cvrs[i] for i in order[:k]] if (comparison or case.get("pass_cvrs")) else None
             try:
                 Assertion.set_p_values(contests, mv, cv)
                 with contextlib.redirect_stdout(sink):
@@ -165,7 +166,7 @@ def impl(case):
                 # C09: recompute every assertion's p-value from its own test on its own data
                 for cid, con in contests.items():
                     for name, asn in con.assertions.items():
-                        d, u = asn.mvrs_to_data(mv, cv)
+                        d, u = asn.mvrs_to_data(mv, cv if comparison else None)
                         asn.test.u = u
                         p2 = float(asn.test.test(d)[0])
                         if not (p2 <= float(con.risk_limit)):
@@ -341,6 +342,8 @@ def gen_case(rng, tier):
                          "test_kwargs": kw})
     case = {"audit_type": "CARD_COMPARISON" if comparison else "POLLING", "contests": contests,
             "cvrs": [mk_card(i, v) for i, v in enumerate(cvrs)], "mvrs": [mk_card(i, v) for i, v in enumerate(mvrs)]}
+    if not comparison and rng.chance(0.3):
+        case["pass_cvrs"] = True
     if comparison and rng.chance(0.4):
         # style-based: one or two cards do not list some contest (the manual record may still show it, or not)
         case["use_style"] = True
